@@ -92,6 +92,10 @@ pub struct WebCase {
     /// user: nothing of the deleted problem may survive
     #[serde(default)]
     pub readd: Option<Box<WebCase>>,
+    /// a task of this strategy may be listed as running although this problem never asked for it (it belongs to a
+    /// problem of the same name that was deleted while the task was running; only set by the stale-writer part)
+    #[serde(default)]
+    pub foreign_task: Option<Strat>,
 }
 
 const POLL_LIMIT: Duration = Duration::from_secs(120);
@@ -645,7 +649,7 @@ fn run_problem_body(cl_in: &Client, jar_in: &mut Jar, c: &WebCase, st: &mut Stat
                 }
                 let unexpected: Vec<&Value> = v["running_tasks"]
                     .as_array()
-                    .map(|a| a.iter().filter(|t| !twice_global.iter().any(|s| **t == json!({"type": "Solve", "content": s.name()}))).collect())
+                    .map(|a| a.iter().filter(|t| !twice_global.iter().chain(c.foreign_task.iter()).any(|s| **t == json!({"type": "Solve", "content": s.name()}))).collect())
                     .unwrap_or_default();
                 if !unexpected.is_empty() {
                     return Err(format!("all requested tasks have stored their result but running_tasks = {}", v["running_tasks"]));
@@ -740,6 +744,7 @@ fn web_case() -> BoxedStrategy<WebCase> {
             hybrid,
             reqs,
             readd: None,
+            foreign_task: None,
         })
         .boxed()
 }
@@ -752,6 +757,99 @@ fn web_case_with_readd() -> BoxedStrategy<WebCase> {
             a
         })
         .boxed()
+}
+
+/// number of self-supporting statements of the slow problem: its stable run enumerates 2^n candidates
+const SLOW_STATEMENTS: usize = 8;
+
+#[derive(Clone, Debug, Serialize, Deserialize)]
+pub struct StaleCase {
+    pub second: WebCase,
+    /// strategy of the task that is still running when its problem is deleted (index into the slow ones)
+    pub stale: u8,
+}
+
+/// A problem is deleted while one of its solve tasks is still running, and another code is added under the same name:
+/// whatever the late task does, the new problem may only ever show answers for ITS code.
+fn c16_stale(c: &StaleCase, st: &mut Stats) -> CheckResult {
+    let srv = server()?;
+    let cl = srv.client();
+    let mut jar = Jar::default();
+    let stale = [Strat::Stable, Strat::StableNogood][(c.stale % 2) as usize];
+    let slow: String = (0..SLOW_STATEMENTS).map(|i| format!("s(zz{i}).ac(zz{i},zz{i}).")).collect();
+    let r = cl.multipart(&mut jar, "/adf/add", &[("name", "p"), ("code", &slow), ("parsing", "Naive")])?;
+    if r.status != 200 {
+        return Err(format!("POST /adf/add (slow problem): status {} {}", r.status, r.text()));
+    }
+    poll_slot(&cl, &mut jar, "p", "parse_only", &json!({"type": "Parse"}))?;
+    let r = cl.json(&mut jar, "PUT", "/adf/p/solve", &json!({"strategy": stale.name()}))?;
+    if r.status != 200 {
+        return Err(format!("solve {} on the slow problem answered {} {}", stale.name(), r.status, r.text()));
+    }
+    let r = cl.delete(&mut jar, "/adf/p")?;
+    if r.status != 200 {
+        return Err(format!("DELETE /adf/p answered {} {}", r.status, r.text()));
+    }
+    // the second problem never asks for the stale strategy
+    let mut second = c.second.clone();
+    second.reqs = second
+        .reqs
+        .into_iter()
+        .filter_map(|rq| match rq {
+            Req::Solve(s) if s == stale => None,
+            Req::Burst(v) => {
+                let v: Vec<Strat> = v.into_iter().filter(|s| *s != stale).collect();
+                if v.is_empty() {
+                    None
+                } else {
+                    Some(Req::Burst(v))
+                }
+            }
+            other => Some(other),
+        })
+        .collect();
+    second.readd = None;
+    second.foreign_task = Some(stale);
+    let was_running = cl.get(&mut jar, "/adf/p").map(|g| g.status).unwrap_or(0);
+    let _ = was_running;
+    let out = run_problem(&cl, &mut jar, &second, st).map_err(|e| format!("new problem under the name of a problem deleted while its {} task was running: {e}", stale.name()))?;
+    // wait until the late task is gone, then look again
+    let t0 = Instant::now();
+    let mut overlapped = false;
+    loop {
+        let g = cl.get(&mut jar, "/adf/p")?;
+        if g.status != 200 {
+            break;
+        }
+        let running = g.json()?["running_tasks"].as_array().map(|a| !a.is_empty()).unwrap_or(false);
+        if !running {
+            break;
+        }
+        overlapped = true;
+        if t0.elapsed() > POLL_LIMIT {
+            return Err(format!("INCONCLUSIVE: tasks are still running {} s after the last request: {}", POLL_LIMIT.as_secs(), g.text().chars().take(300).collect::<String>()));
+        }
+        std::thread::sleep(Duration::from_millis(20));
+    }
+    std::thread::sleep(Duration::from_millis(50));
+    let g = cl.get(&mut jar, "/adf/p")?;
+    if g.status == 200 && second.kind == CodeKind::WellFormed {
+        let v = g.json()?;
+        let ty = v["acs_per_strategy"][stale.slot()]["type"].as_str().unwrap_or("?").to_string();
+        if ty != "None" {
+            return Err(format!(
+                "the new problem (code {}) shows an answer in slot {} that was never requested for it: the result of the deleted problem's task was stored into it ({})",
+                v["code"],
+                stale.slot(),
+                v["acs_per_strategy"][stale.slot()].to_string().chars().take(200).collect::<String>()
+            ));
+        }
+    }
+    st.label(if overlapped { "stale:task-outlived-the-new-problem's-requests" } else { "stale:task-ended-during-the-new-problem's-requests" });
+    if out == Outcome::Ok {
+        st.nontrivial(stable_hash(&(stable_hash(&format!("{:?}", c.second.adf.acs)), c.stale)), || json!({"stale_strategy": stale.name(), "second_code": c.second.adf.text()}));
+    }
+    Ok(out)
 }
 
 pub fn c16(tier: Tier) -> PropSpec {
@@ -773,6 +871,16 @@ pub fn c16(tier: Tier) -> PropSpec {
             "'eventually' is bounded polling (40 s); a slot still empty while the task is listed as running is INCONCLUSIVE (exit 2), a slot empty after the task ended is a violation",
         ],
         exhaustive: false,
-        parts: vec![Part::with_shrink("problems", tier.pick(1200, 12000), 60, web_case_with_readd, c16_check)],
+        parts: vec![
+            Part::with_shrink("problems", tier.pick(1200, 12000), 60, web_case_with_readd, c16_check),
+            // a problem deleted while a solve task of it is running, another code added under its name
+            Part::with_shrink(
+                "stale-writer",
+                tier.pick(48, 480),
+                20,
+                || (web_case(), any::<u8>()).prop_map(|(second, stale)| StaleCase { second, stale }).boxed(),
+                c16_stale,
+            ),
+        ],
     }
 }
